@@ -1,4 +1,5 @@
 // Harnesses for src/coding.rs (child module `coding::verif`).
+//@ uses: rice.rs   (stub_verified(rice::encode_signbit) needs its proof_for_contract harness in the build)
 
 use crate::error::VerifyError;
 use crate::source::verif::framebuf_from_parts;
